@@ -57,6 +57,12 @@ def exhaustive_cases(tier):
 def gen_cases(rng, tier):
     n = 600 if tier == "quick" else 6000
     out = exhaustive_cases(tier)
+    # large configurations: many patterns per method, clauses of several methods interleaved
+    for i in range(n // 12):
+        mids = rng.sample([0, 1, 2, 3], rng.randint(2, 3))
+        g = K.Gen(rng, mids=mids, n_terms=(12, 30), n_events=(8, 24), ordered_frac=0.0, stub_frac=0.4, max_segments=1,
+                  final=rng.choice(["drop", "verify"]), partial_frac=0.3, full_mask_frac=0.05, nomatcher_frac=0.0)
+        out.append(g.case())
     for i in range(n):
         mids = rng.sample([0, 1, 2, 3, 4, 5], rng.randint(1, 4))
         g = K.Gen(rng, mids=mids, n_terms=(1, 6), n_events=(4, 24), ordered_frac=0.0,
